@@ -16,6 +16,7 @@ RULE = ('values: uint/int for EVERY width 1..256/257 x boundary values (all valu
         'end_cell().bits == concatenated reference TL-B bits; loading in order returns the values; each preload_* returns the same value and '
         'leaves the slice unchanged; nothing is left unread. non-trivial = sequence length >= 2 or a boundary value; states = distinct op '
         'histories; transitions = store/load/peek calls; traces = sequences compared with the reference encoding')
+RULE += ' Fifth session: zero-width integers in the sequence alphabet.'
 LEVEL_TEXT = ('Bounded-exhaustive: every width and every variable-length class of every typed store is exercised with boundary values, and every '
               'interleaving of typed stores up to the depth bound is stored, compared bit-for-bit with independent TL-B reference encodings, and '
               'read back with peek = read checks.')
